@@ -46,6 +46,11 @@ class Spec:
     def canon_model(self, line):
         return line
 
+    def post(self, cases, impl, model):
+        """Cross-case oracle on the implementation's outputs.  Returns a list of
+        (case, impl_line, what) concrete violations."""
+        return []
+
     def search(self, case, run_impl, run_model):
         """Given a case on which model and implementation disagree (or any seed case when a
         proof obligation broke), look in its neighbourhood for a concrete violation.  Returns
@@ -85,7 +90,10 @@ def run_spec(spec, rep, tier, seed, coq=None):
     nontriv = set()
     mismatches = []
     concrete = 0
+    skipped = sum(1 for i in impl if i == "SKIPPED")
     for c, i, m in zip(cases, impl, model):
+        if i == "SKIPPED":
+            continue
         kinds[spec.kind(c, i)] += 1
         if spec.nontrivial(c, i):
             nontriv.add(c)
@@ -100,6 +108,14 @@ def run_spec(spec, rep, tier, seed, coq=None):
                                      "how_to_run": "tools/check.py --property %s --replay <this file>" % pid})
         if i != m:
             mismatches.append((c, i, m))
+    for c, i, what in spec.post(cases, impl, model):
+        k = spec.known(c, i, None, what)
+        if k:
+            rep.known_finding(k[0], k[1])
+        else:
+            concrete += 1
+            rep.violation(what, {"kind": "input", "case": c, "impl_output": i,
+                                 "how_to_run": "tools/check.py --property %s --replay <this file>" % pid})
     # correspondence broken: look for a concrete failing input near each disagreement
     unexplained = []
     for c, i, m in mismatches[:50]:
@@ -157,6 +173,7 @@ def run_spec(spec, rep, tier, seed, coq=None):
         "samples": samples,
         "traces_validated_against_impl": len(cases) - len(mismatches),
         "disagreements": len(mismatches),
+        "skipped_after_many_crashes": skipped,
         "input_distribution": dict(kinds),
         "corpus_cases": len(corpus),
         "harness_variant": spec.variant,
